@@ -295,6 +295,74 @@ func runC14(c *Ctx) {
 	}
 
 	s := sess()
+	// the reply overtakes the writer: the coordinator's answer is processed before WritePkg returns
+	nSync := c.Budget(20, 300)
+	for i := 0; i < nSync; i++ {
+		cid := fmt.Sprintf("sync-%d", i)
+		if !c.Want(cid) {
+			continue
+		}
+		n := 1 + i%4
+		var wgs sync.WaitGroup
+		results := make([]string, n)
+		coord.Script = func(s *FakeSession, kind string, m message.RpcMessage) Action {
+			if b, ok := m.Body.(message.GlobalStatusRequest); ok && strings.HasPrefix(b.Xid, cid+"-") {
+				return Action{Sync: true, Body: message.GlobalStatusResponse{AbstractGlobalEndResponse: message.AbstractGlobalEndResponse{
+					AbstractTransactionResponse: failHead("for-" + b.Xid), GlobalStatus: message.GlobalStatusBegin}}}
+			}
+			return Action{}
+		}
+		for k := 0; k < n; k++ {
+			k := k
+			wgs.Add(1)
+			go func() {
+				defer wgs.Done()
+				xid := fmt.Sprintf("%s-%d", cid, k+1)
+				res, err := sgetty.GetGettyRemotingClient().SendSyncRequest(message.GlobalStatusRequest{AbstractGlobalEndRequest: message.AbstractGlobalEndRequest{Xid: xid}})
+				switch {
+				case err != nil && strings.Contains(err.Error(), "timeout"):
+					results[k] = "timeout"
+				case err != nil:
+					results[k] = "write-error"
+				default:
+					if r, ok := res.(message.GlobalStatusResponse); ok && r.Msg == "for-"+xid {
+						results[k] = "own"
+					} else {
+						results[k] = "foreign"
+					}
+				}
+			}()
+		}
+		wgs.Wait()
+		f, _ := sgetty.VerifPendingFutures()
+		var parts, evs []string
+		okAll := true
+		for k := 0; k < n; k++ {
+			parts = append(parts, fmt.Sprintf("c%d=%s", k+1, results[k]))
+			evs = append(evs, fmt.Sprintf("s%d r%d", k+1, k+1))
+			if results[k] != "own" {
+				okAll = false
+			}
+		}
+		obs := fmt.Sprintf("%s residue=%d blocked=%d", strings.Join(parts, " "), f, parkedInDelivery())
+		c.Out.Case(cid, "C14", fmt.Sprintf("sched %d %s", n, strings.Join(evs, " ")), obs)
+		c.Out.Oracle(cid, okAll && f == 0, "reply_overtakes_writer", "a reply processed before WritePkg returned was not delivered to its caller | "+obs)
+		c.Out.Tag(cid, fmt.Sprintf("nontrivial=%d", b2i(n > 1)))
+		c.Out.Count("batch.sync-reply")
+	}
+	coord.Script = func(s *FakeSession, kind string, m message.RpcMessage) Action {
+		if b, ok := m.Body.(message.GlobalStatusRequest); ok {
+			mu.Lock()
+			cl := byXid[b.Xid]
+			mu.Unlock()
+			if cl != nil {
+				cl.msgID = m.ID
+				close(cl.seen)
+				return Action{Drop: true}
+			}
+		}
+		return Action{}
+	}
 	// fast cases: a few at a time (they share the one session and the one table, as in deployment)
 	var wg sync.WaitGroup
 	sem := make(chan struct{}, 8)
